@@ -124,10 +124,38 @@ def opaque_leaf_streams(ctx):
                           signature="C01:dot:opaque-leaf-%s" % fam)
 
 
+def large_leaf_stream(ctx):
+    """a few LARGE leaves (dozens of batch signals, thousands of samples): size-dependent code paths of the library-backed classes are
+    judged by the dot test too"""
+    sp = core.import_sigpy()
+    rs = np.random.RandomState(ctx.rng.randrange(2 ** 31))
+    cr = lambda sh: rs.standard_normal(sh) + 1j * rs.standard_normal(sh)      # noqa: E731
+    lin = sp.linop
+    ops = [("ConvolveData:batch40", lambda: lin.ConvolveData([40, 64], cr([5]), mode="full")),
+           ("ConvolveData:batch40:valid", lambda: lin.ConvolveData([40, 64], cr([5]), mode="valid", strides=[2])),
+           ("ConvolveFilter:batch40", lambda: lin.ConvolveFilter([5], cr([40, 64]), mode="full")),
+           ("ConvolveData:long", lambda: lin.ConvolveData([6000], cr([9]))),
+           ("FFT:large", lambda: lin.FFT([258, 258])), ("IFFT:large", lambda: lin.IFFT([66, 1026], axes=[-1, -2])),
+           ("Vstack:FiniteDifference", lambda: lin.FiniteDifference([40, 30]))]
+    bad = None
+    for name, mk in ops:
+        A = mk()
+        x, y = cr(A.ishape), cr(A.oshape)
+        Ax, AHy = np.asarray(A(x)), np.asarray(A.H(y))
+        lhs, rhs = np.vdot(y, Ax), np.vdot(AHy, x)
+        sc = np.linalg.norm(Ax) * np.linalg.norm(y) + 1e-300
+        ctx.count("C01:large-leaf:" + name, key=name, nontrivial=True)
+        if abs(lhs - rhs) > 1e-9 * sc and bad is None:
+            bad = dict(kind="oracle", operator=repr(A), name=name, relative_error=float(abs(lhs - rhs) / sc), data="numpy RandomState stream of this run")
+    if bad is not None:
+        ctx.violation("C01: <A x, y> != <x, A^H y> for a large leaf (%s)" % bad["name"], bad, signature="C01:dot:large-leaf")
+
+
 def run(ctx):
     linop_common.run_linop(ctx, "C01", "Prop_C01.v", 150, 4000, {"adj", "shapes", "applyH", "dot"})
     opaque_leaf_streams(ctx)
     interp_leaf_stream(ctx)
+    large_leaf_stream(ctx)
     nonorthogonal_wavelet_stream(ctx)
 
 
